@@ -237,7 +237,7 @@ def check(tier="quick", seed=0, workers=None, only=None):
     with mp.get_context("fork").Pool(nw) as pool:
         for spec, bound in scs:
             st = engine.explore(spec, bound=bound, merge=False, pool=pool, seed=seed, max_violations=400,
-                                max_execs=150000 if tier == "quick" else 2000000, max_seconds=60 if tier == "quick" else 900, recheck=1)
+                                max_execs=150000 if tier == "quick" else 1000000, max_seconds=60 if tier == "quick" else 240, recheck=1)
             per.append({"scenario": spec[2][:160], "preemption_bound": bound, "executions": st.evaluations, "max_points": st.max_depth,
                         "complete": not st.caps, "caps": st.caps, "outcomes": len(st.outcomes)})
             total.merge_from(st)
